@@ -140,7 +140,9 @@ def sym_abs(x):
     a, b = z3.simplify(x.rez()), z3.simplify(x.imz())
     r = CABS(a, b)
     CTX.path.assume(z3.And(r >= 0, r * r == a * a + b * b))
-    return SNum(r, np=x.np)
+    out = SNum(r, np=x.np)
+    out.absof = (a, b)
+    return out
 
 
 ops.num_abs = sym_abs
